@@ -172,11 +172,10 @@ IsNumberV(v) == v.t \in {"int", "lit", "flt"}
 \* ---------------------------------------------------------------------------
 \* encodeObject: sort.Slice(kvs, key <) - insertion sort on the bytewise order
 
-RECURSIVE InsertPair(_, _)
-InsertPair(sorted, kv) ==
-  IF Len(sorted) = 0 THEN <<kv>>
-  ELSE IF BytesLess(kv[1], sorted[1][1]) THEN <<kv>> \o sorted
-  ELSE <<sorted[1]>> \o InsertPair(Tail(sorted), kv)
+\* position of the first pair whose key is not below k (Len + 1 if none)
+RECURSIVE LowerBound(_, _, _)
+LowerBound(o, k, i) == IF i > Len(o) \/ ~BytesLess(o[i][1], k) THEN i ELSE LowerBound(o, k, i + 1)
+InsertPair(sorted, kv) == LET p == LowerBound(sorted, kv[1], 1) IN SubSeq(sorted, 1, p - 1) \o <<kv>> \o SubSeq(sorted, p, Len(sorted))
 RECURSIVE SortPairsFrom(_, _, _)
 SortPairsFrom(o, i, acc) == IF i > Len(o) THEN acc ELSE SortPairsFrom(o, i + 1, InsertPair(acc, o[i]))
 IsSortedPairs(o) == \A i \in 1..(Len(o) - 1) : BytesLess(o[i][1], o[i + 1][1])
@@ -408,12 +407,10 @@ ReadStrFrom(s, i, acc) ==
             ELSE ReadStrFrom(s, i + r.size, Append(acc, SubSeq(s, i, i + r.size - 1)))
 
 \* canonical objects: sorted by key, a later duplicate replaces an earlier one
-RECURSIVE PutPair(_, _, _)
 PutPair(o, k, v) ==
-  IF Len(o) = 0 THEN << <<k, v>> >>
-  ELSE IF o[1][1] = k THEN << <<k, v>> >> \o Tail(o)
-  ELSE IF BytesLess(k, o[1][1]) THEN << <<k, v>> >> \o o
-  ELSE <<o[1]>> \o PutPair(Tail(o), k, v)
+  LET p == LowerBound(o, k, 1) IN
+  IF p <= Len(o) /\ o[p][1] = k THEN [o EXCEPT ![p] = <<k, v>>]
+  ELSE SubSeq(o, 1, p - 1) \o << <<k, v>> >> \o SubSeq(o, p, Len(o))
 
 RECURSIVE ReadValue(_, _)
 ReadValue(s, i0) ==
@@ -484,10 +481,12 @@ Norm(v) ==
     [] v.t = "str" -> VStr(ToValid(v.b))
     [] v.t = "arr" -> VArr([i \in 1..Len(v.a) |-> Norm(v.a[i])])
     [] v.t = "obj" ->
-         LET kvs == SortPairs(v.o)
+         LET kvs == SortPairs(v.o)                                   \* the order in which the members are written
+             nk == [i \in 1..Len(kvs) |-> <<ToValid(kvs[i][1]), Norm(kvs[i][2])>>]
              RECURSIVE Put(_, _)
-             Put(i, acc) == IF i > Len(kvs) THEN acc ELSE Put(i + 1, PutPair(acc, ToValid(kvs[i][1]), Norm(kvs[i][2])))
-         IN VObj(Put(1, <<>>))
+             Put(i, acc) == IF i > Len(nk) THEN acc ELSE Put(i + 1, PutPair(acc, nk[i][1], nk[i][2]))
+         IN IF IsSortedPairs(nk) THEN VObj(nk)                       \* no collision, order kept: nothing to merge
+            ELSE VObj(Put(1, <<>>))
 
 \* ---------------------------------------------------------------------------
 \* The decimal value of a number literal, to state that a number reads back EQUAL (not only as the
